@@ -77,6 +77,10 @@ def corpus_chars():
             out.append((b"?" + bytes([c]) + suffix, el))
             out.append((b"?\\" + bytes([c]) + suffix, el))
         out.append((b"[?" + bytes([c]) + b" ?\\" + bytes([c]) + b"]", el))
+    for head in (b"#\\a", b"#\\x3bb", b"#\\space", b"#\\\xce\xbb", b"#\\x41"):
+        for sep in (b"\t", b"\n", b"\r", b"\x0c", b";c\n", b"\t1", b"\n#\\b"):
+            out.append((head + sep, r6))
+            out.append((b"(" + head + sep + b")", r6))
     for c2 in (0x80, 0xA0, 0xC3, 0xCE, 0xE2, 0xFF):
         for head in (b"#\\a", b"#\\x41", b"#\\space", b"#\\x", b"#\\(", b"#\\\xce\xbb"):
             out.append((head + bytes([c2]), r6))
@@ -152,6 +156,7 @@ def corpus_lists():
              b"(\"a\\n\" .x)", b"(#\\space .x)", b"(1.5 .x)", b"(-y .x)", b"(\"\\x41;\" .x: .y)", b"(1 2.)", b"(- . +)", b"(+ -)", b"#(+ -)", b"[+ -]", b"[a . b]", b"(a . [b])", b"[- ]", b"(... . ...)", b"(.. . a)", b"(a . . b)",
              b'("a\\nb" :k "c\\td" :j)', b"(-y :k)", b"(.x :k)", b"(\xce\xbb :k)", b"(-1.5 :k)", b'("a\\nb" #:k)', b'("a\\nb" k:)', b'("q\\x41;" :k . :j)',
              b'#("a\\nb" :k)', b"(+x :k -y :j)",
+             b'(a ."s")', b"(a .(b))", b"(a .[b])", b"(a .;c\n b)", b"(a .|)", b"(a .#t)", b'(a."s")', b"(a .'b)",
              b"(a\tb c)", b"a\tb", b"(1\t2)", b"(a\rb)", b"(a\nb)", b"(:k\tv)", b"(x:\ty)", b"#(a\tb)"]
     osets = [DEFAULT, ELISP, P(k=7, nil=0, t=0, br=1), P(k=0, nil=2, t=0, br=0, dg=1), P(k=2, nil=2, br=1, ss=1, cs=1)]
     for t in texts:
@@ -292,6 +297,7 @@ SPAN_CORPUS = [b"  abc  ", b"\n (a \"b\" #\\c)\n", b"'x y", b"#(1 2) ;c\n 3", b"
                b"(a bb ccc dddd)", b"(a .b c)", b"(.a)", b"(x .yy . zz)", b"(a (b c) d)", b"(a (b . c) . d)", b"((a) (b) (c))", b"(1 . (2 . (3 . ())))",
                b"#(a bb ccc)", b"#((a b) #(c d) e)", b"(a #(b c) . #(d))", b"[a bb . cc]", b"(a\n bb\n  ccc)", b"#(a\n bb\n  ccc)", b"(a 'b `(c ,d) . e)",
                b"(\xce\xbb .\xce\xbc \xce\xbd)", b"(a ... b)", b"(#\\a #\\space \"s\" 1.5 #t . #nil)", b"x y z", b"(a)(b)", b"( a ( b ( c ( d ) ) ) )",
+               b",@xs", b"(a ,@b ,c)", b",@(a b)", b"`(,@a ,@b)", b"(a .\"s\")", b"(a . \"s\")",
                b"(a\tb c)", b"a\tb", b"(a\x0cb)", b"#u8(1 2 3)", b"  #u8(1 2 3) x", b"(a #vu8(1\n 2) b)", b"#(#u8() #u8(255))", b"\"a\\nb\" \"c\""]
 
 
@@ -316,8 +322,9 @@ def _span_walk_check(text, sp, val):
             return "span %r..%r is empty, outside its parent or overlaps its preceding sibling" % (sp["s"], sp["e"])
         piece = text[a:b]
         if shorthand_head:
-            if piece not in (b"'", b"`", b",", b",@"):
-                return "head span of a quote shorthand covers %r" % piece.decode("latin-1")
+            whole = b",@" if text[a:a + 2] == b",@" else text[a:a + 1]
+            if piece != whole or whole not in (b"'", b"`", b",", b",@"):
+                return "head span of a quote shorthand covers %r, the shorthand is %r" % (piece.decode("latin-1"), whole.decode("latin-1"))
             return None
         one = RP.single(piece, "default", "slice")
         if one != val:
@@ -378,6 +385,11 @@ def check_spans(fast=True):
                         break
             if why is None and sp != per_src["slice"]:
                 why = "spans differ between the slice and the %s source" % src
+            if why is None:
+                pw = RP.parse(text, "default", src, "spans_pairs", fast)
+                n += 1
+                if pw != sp:
+                    why = "walking the lists cell by cell (as_pair) gives other spans than the list iterator: %s" % _short(pw)
             if why:
                 bad.append({"input_hex": text.hex(), "input": text.decode("latin-1"), "opts": "default", "src": src, "api": "spans", "fast": fast,
                             "expected": "spans delimiting exactly each sub-datum", "observed": why, "why": why})
@@ -464,8 +476,8 @@ def run_domain(name, fast=True):
             _CACHE[key] = check_iteration(fast)
         elif name == "locations":
             _CACHE[key] = check_locations(fast)
-        elif name in ("serde", "printcheck", "alist", "conswalk"):
-            cmd = {"serde": "serdecheck", "printcheck": "printcheck", "alist": "alistcheck", "conswalk": "conscheck"}[name]
+        elif name in ("serde", "printcheck", "alist", "conswalk", "numconv"):
+            cmd = {"serde": "serdecheck", "printcheck": "printcheck", "alist": "alistcheck", "conswalk": "conscheck", "numconv": "numcheck"}[name]
             r = RP.run_cmd([cmd], fast=True, timeout=600)
             _CACHE[key] = (r.get("cases", 0), [{"kind": "corpus", "cmd": cmd, "what": b} for b in r.get("bad", [])])
         elif name == "value_vs_datum":
